@@ -78,6 +78,23 @@ func doCall(name, path, arg string) string {
 		}))
 	case "create":
 		return closeAfter(lockedfile.Create(path))
+	case "createwrite", "editwrite": // Create / Edit, then one Write of the data, then Close
+		var f *lockedfile.File
+		var err error
+		if name == "createwrite" {
+			f, err = lockedfile.Create(path)
+		} else {
+			f, err = lockedfile.Edit(path)
+		}
+		if err != nil {
+			return "err"
+		}
+		var werr error
+		if d := unhex(arg); len(d) > 0 {
+			_, werr = f.Write(d)
+		}
+		f.Close()
+		return res(werr)
 	case "edit":
 		return closeAfter(lockedfile.Edit(path))
 	case "open":
